@@ -719,7 +719,10 @@ var spec = run.Spec[Case]{ID: "C12", Name: "intersect", Gen: genCase, Prop: prop
 
 func TestPropIntersect(t *testing.T) { run.Generated(t, spec) }
 func TestRegress(t *testing.T)       { run.Regress(t, spec) }
-func TestReplay(t *testing.T)        { run.ReplayOne(t, spec) }
+func TestReplay(t *testing.T) {
+	run.ReplayOne(t, spec)
+	run.ReplayOne(t, concSpec)
+}
 
 // TestExhaustiveGrid enumerates every ordered pair of non-degenerate segments
 // on the 4x4 grid (57 600 pairs; 5x5 = 360 000 in the thorough tier).
